@@ -117,6 +117,43 @@ DESCR = {
     'C14-A12-1': ('driver passes the word size in bits to the typechecker', 'compiled through `python -m hidc`; a folded constant that wraps at the real word size'),
     'C10-A12-2': ('error renderer unpacks the context unconditionally', 'a diagnostic without source position (missing @is_you, file errors)'),
     'C13-A12-3': ('SourceCode.from_file expands tabs', 'a raw TAB inside a string or character literal of a source file'),
+    # ---- round 4 (sub-agents focused on a language feature, free choice of property and place)
+    'C01-F1-1': ('@is_you returns by a direct jump to the win loop instead of through its return-address slot', 'an explicit call of @is_you (recursion, or from another you-function)'),
+    'C16-F1-2': ('calls named all_is_win/all_is_broken count as terminal whatever their arguments', 'a user-defined overload with parameters that returns, called as a statement'),
+    'C02-F1-3': ('jump to the defeat handler emitted before the condition of !truth_is_defeat is evaluated', 'effectful bool condition (call, not/and of a call) in a try/stop body, defeat occurs'),
+    'C07-F2-1': ('"redeclaration" test looks the name up among the globals', 'a global x, a local or parameter x, and a further declaration of x in the same function'),
+    'C01-F2-2': ('parameter scopes of already generated functions are never popped', 'a global G, an earlier-generated function with a parameter G, a later function using the global'),
+    'C01-F2-3': ('non-const array literals with constant elements become one static array', 'such a declaration executed twice with a write in between'),
+    'C05-F3-1': ('the length guard is skipped for compile-time constant lengths', 'constant length whose byte size wraps: bool b[-1], string b[-32768], int b[5592406] at W=3'),
+    'C01-F3-2': ('bool array literal accumulates the partial byte in r2 without spilling', 'two run-time elements in one group of 8, the later one clobbering r2'),
+    'C14-F3-3': ('constant string indexed by a constant folded with Python indexing', 'negative constant index into a string literal / const string'),
+    'C16-F4-1': ('LoopBlock.exit_modes restructured into early returns, zero-trip NONE lost', 'non-constant loop without break whose body always exits, placed last'),
+    'C01-F4-2': ('loop back edge omitted when the body exits only by return/defeat', 'a continue in a loop body that otherwise ends in return'),
+    'C14-F4-3': ('and/or folded when either operand is the absorbing constant', 'effectful left operand with a constant absorbing right operand'),
+    'C01-F5-1': ('string -> byte[] conversion computes the origin before loading the length', 'string held in a register (local, parameter, element, call result)'),
+    'C02-F5-2': ('try_fp saved once at function entry instead of at every try/stop', 'a you-function calling another you-function with its own try/stop before its own try, then defeated'),
+    'C16-F5-3': ('terminal calls recognised by a name table', 'user overload with parameters of all_is_win / all_is_broken / !is_defeat'),
+    'C04-F6-1': ('run-time array size computed with a shift by elsize >> 1', 'int/string dynamic array at W=3 (too small) or W=8 (too large)'),
+    'C01-F6-2': ('word-sized store into byte/bool globals', 'computed value assigned to a byte/bool global followed by another global in memory'),
+    'C14-F6-3': ('values of bit_length <= 16 skip the word-size wrap', 'folded constant of magnitude 32768..65535 at -m16 consumed by / % or a comparison'),
+    'C05-F7-1': ('division guard moved to the expression case only', 'a[i] /= d or a[i] %= d with d == 0'),
+    'C05-F7-2': ('length guard regrouped after the size computation (compares the size)', 'run-time length whose size wraps: int a[-32765], bool a[-3]'),
+    'C04-F7-3': ('checkpoint update for static array literals removed', 'array literal as the deepest frame point, stack exactly full'),
+    'C16-F8-1': ('ExitMode.replace returns self when the old mode is absent', 'non-constant loop whose body always returns'),
+    'C07-F8-2': ('folded constants take shrinkability from their (coerced) operands', 'const int arithmetic used where a byte is required'),
+    'C01-F8-3': ('terminal calls recognised by name (table without the () pattern)', 'user overload with parameters of a terminal builtin, called before further statements'),
+    'C03-F9-1': ('return restores the real defeat handler before its value is evaluated', 'return !f(x) inside try/stop where !f is defeated'),
+    'C16-F9-2': ('try exit modes ignore the handler unless the body shows DEFEAT', 'defeat only through calls inside expressions; handler leaves differently'),
+    'C02-F9-3': ('K ?? e folded to K when e contains no call', 'constant left operand, call-free right operand that faults (index, division)'),
+    'C10-F10-1': ('function bodies generated lazily inside gen_lines', 'CodeGenError raised while a function body is generated, through the command line: an empty output file stays behind'),
+    'C10-F10-2': ('builtins get a span attribute of None', 'user function with exactly the signature of a builtin: the diagnostic cannot be rendered'),
+    'C12-F10-3': ('from_file reads bytes and splits on LF only', 'lone CR line breaks in a file with a // comment'),
+    'C14-F11-1': ('and/or with an absorbing constant on the right drop a call-free left operand', 'left operand that faults at run time (index out of range, division by zero)'),
+    'C05-F11-2': ('constant index into constant string/array literal folded with Python indexing', 'constant index in -length..-1'),
+    'C16-F11-3': ('zero-trip NONE added only when the body contains a break', 'non-constant loop without break whose body always returns'),
+    'C05-F12-1': ('division guard moved to the expression case only', 'a[i] /= 0 on an array element'),
+    'C09-F12-2': ('write(e is bool) pushes the int into the one-byte bool slot', 'non-zero value with a zero low byte cast to bool directly in the argument of write'),
+    'C01-F12-3': ('string -> byte[] conversion loads the length after overwriting the register', 'string held in a local, parameter or call result'),
 }
 
 # seeded changes that the target check did NOT catch when first run, and what was added to the check afterwards
@@ -170,6 +207,19 @@ STRENGTHENED = {
     'C08-A11-2': 'C08 family X gained `tailcall`/`tailcall2`: return of a call whose arguments read local arrays',
     'C14-A12-1': 'C14 gained the `cli` item (constant forms compiled through `python -m hidc -m<bits>` and executed); C10 gained driver/library byte parity',
     'C13-A12-3': 'C13 gained the `file` item (raw control and non-ASCII characters in literals of a source file compiled by the driver); C12 gained from_file comparison',
+    # ---- round 4
+    'C01-F1-1': 'C01 family F gained a program in which @is_you is called recursively and from another you-function',
+    'C02-F1-3': 'family T gained the atom `!truth_is_defeat(chk(x))` whose condition prints and writes a global',
+    'C01-F2-2': 'C01 family F (globals program) gained functions generated after a function whose parameter shadows the global they use',
+    'C05-F3-1': 'C05 LEN gained the same lengths written as literals and const-variable expressions (compile-time rejection allowed iff the run-time would fault)',
+    'C16-F4-1': 'C16 family B: the `for` compound is now a loop with a non-constant condition and no break of its own (the `while` compound always contained a break for progress); for(;;) moved to the curated bodies',
+    'C01-F4-2': 'C01 family F gained search loops (`continue` on mismatch, `return` otherwise) over literal, dynamic and empty arrays (C16 already caught it)',
+    'C02-F5-2': 'family H gained the shape "call another you-function with try/stop, and the function itself, before the own tries"',
+    'C01-F8-3': 'C01 family F gained user overloads of all_is_win / all_is_broken called in the middle of a block (C16 already caught it)',
+    'C02-F9-3': 'family Q gained constant left operands with call-free right operands that fault',
+    'C10-F10-1': 'C10 command-line grid gained one program per CodeGenError class (7 more) and always includes sane option combinations for every program',
+    'C14-F11-1': 'C14 effects family gained 18 expressions whose call-free operand faults next to an absorbing constant',
+    'C05-F11-2': 'C05 gained family STRC: 9 constant sources x 23 constant indices in 3 spellings',
 }
 
 
